@@ -1,8 +1,16 @@
-(* Proofs about the fragment READER of Model/Frag.v (section "R. Reader" of TARGETS_frag.md):
-   reader_eof, reader_helper, reader_safe. *)
+(* Proofs about the fragment READER of Model/Frag.v (section "R. Reader" of TARGETS_frag.md).
+   Main theorems (all premises: wf fs, ck_new (first_ctype fs) = Some ck0, ck_chain ck0 fs,
+   denote (chunks_of fs) = [a1; a2; a3]):
+     reader_eof     reads running past EOF: every code 0/12, data = a_i, final state, all released
+     reader_helper  the ArgReadHelper path (ReadAll / EnsureEmpty / Close) returns (a_i, 0)
+     reader_safe    arbitrary read sizes >= 0: no panic; an argument whose Begin/reads/Close all
+                    succeed has data = a_i; data is always a prefix of a_i; errors are sticky
+   and the same three statements through r_run of Model/FragWire.v (reader_*_run).
+   Invariant: Inv N st h t -- h = what is left of the argument in progress, t = the later
+   arguments, computed from the events still to come (split_evs (ev_rest st)). *)
 From Coq Require Import ZArith List Bool Lia ZifyBool.
-From Verif Require Import Base.Wrap Base.Bytes Gen.GenConsts Model.Crc Model.Frag
-  Spec.FragSpec Spec.FragOk.
+From Verif Require Import Base.Wrap Base.Bytes Base.Wire Gen.GenConsts Model.Crc Model.Frag
+  Model.FragWire Spec.FragSpec Spec.FragOk.
 Import ListNotations.
 Local Open Scope Z_scope.
 
@@ -78,25 +86,6 @@ Fixpoint sticky (l : list (list Z * Z)) : Prop :=
 (* final state of a completely read message of N fragments *)
 Definition r_final (N : Z) (st : rst) : Prop :=
   rs_state st = c_fragmentingReadComplete /\ rs_fin st = true /\ rs_rel st = N /\ rs_err st = 0.
-
-(* ---- small concrete instances ---- *)
-Definition ex_fs : list frag :=
-  [mkFrag true 0 [] [[1;2]; [3]]; mkFrag true 0 [] [[4]]; mkFrag false 0 [] [[]; [5;6]]].
-
-Definition run3 (ns1 ns2 ns3 : list Z) (fs : list frag) :=
-  match arg_read false ns1 (r_init fs) with
-  | None => None
-  | Some (cb1, l1, cc1, st1) =>
-    match arg_read false ns2 st1 with
-    | None => None
-    | Some (cb2, l2, cc2, st2) =>
-      match arg_read true ns3 st2 with
-      | None => None
-      | Some (cb3, l3, cc3, st3) => Some ((cb1, l1, cc1), (cb2, l2, cc2), (cb3, l3, cc3), st3)
-      end
-    end
-  end.
-
 
 (* ================================================================== *)
 (* Events read from the right: (rest of the argument in progress, later arguments) *)
@@ -703,3 +692,336 @@ Proof.
     apply sticky_arg; [exact C3|intros _; constructor|exact I].
   - intros _ _ (_ & _ & H). destruct P3 as [(_ & _ & F)|[[E _] _]]; [exact F|congruence].
 Qed.
+
+(* ================================================================== *)
+(* reader_helper                                                       *)
+(* ================================================================== *)
+Definition ev_payload (e : chunk_ev) : list Z := match e with Cont c => c | New c => c end.
+Definition evsize (evs : list chunk_ev) : Z := fold_right (fun e a => zlen (ev_payload e) + a) 0 evs.
+Definition lsum (t : list (list Z)) : Z := fold_right (fun c a => zlen c + a) 0 t.
+
+Lemma split_size evs : zlen (fst (split_evs evs)) + lsum (snd (split_evs evs)) = evsize evs.
+Proof.
+  induction evs as [|e evs IH]; [reflexivity|].
+  cbn [split_evs fold_right evsize]. fold (split_evs evs). fold (evsize evs).
+  destruct e as [c|c]; cbn [sp_step fst snd ev_payload lsum fold_right]; fold (lsum (snd (split_evs evs)));
+    rewrite ?zlen_app; change (zlen (@nil Z)) with 0; lia.
+Qed.
+
+Lemma evsize_app a b : evsize (a ++ b) = evsize a + evsize b.
+Proof. induction a as [|e a IH]; cbn [app evsize fold_right]; [reflexivity|]. fold (evsize (a ++ b)). fold (evsize a). lia. Qed.
+
+Lemma evsize_new cs : evsize (map New cs) = lsum cs.
+Proof. induction cs as [|c cs IH]; [reflexivity|]. cbn [map evsize fold_right lsum ev_payload]. fold (evsize (map New cs)). fold (lsum cs). lia. Qed.
+
+Lemma evsize_frag cs : evsize (frag_events cs) = lsum cs.
+Proof.
+  destruct cs as [|c cs]; [reflexivity|]. cbn [frag_events evsize fold_right ev_payload lsum].
+  fold (evsize (map New cs)). fold (lsum cs). rewrite evsize_new. reflexivity.
+Qed.
+
+Lemma evsize_in fs : evsize (evs_in fs) = fold_right (fun f a => lsum (f_chunks f) + a) 0 fs.
+Proof.
+  induction fs as [|f r IH]; [reflexivity|]. rewrite evs_in_cons, evsize_app, evsize_frag, IH. reflexivity.
+Qed.
+
+Lemma total_bytes_ge N st h t : Inv N st h t -> zlen h <= total_bytes st.
+Proof.
+  intros I. pose proof (split_size (ev_rest st)) as S. rewrite (inv_split _ _ _ _ I) in S. cbn [fst snd] in S.
+  assert (E : evsize (ev_rest st) = total_bytes st).
+  { unfold ev_rest, ev_tail, total_bytes. cbn [evsize fold_right ev_payload].
+    fold (evsize (map New (rs_rem st) ++ evs_in (rs_in st))).
+    rewrite evsize_app, evsize_new, evsize_in. unfold lsum. lia. }
+  assert (L : forall t0, 0 <= lsum t0).
+  { induction t0 as [|c t0 IHt]; cbn [lsum fold_right]; [lia|]. fold (lsum t0). pose proof (zlen_nonneg c). lia. }
+  pose proof (L t). lia.
+Qed.
+
+Lemma readall_ok N bufsz : 0 < bufsz -> forall fuel acc st h t,
+  Inv N st h t -> is_reading (rs_state st) = true -> (Z.to_nat (zlen h) < fuel)%nat ->
+  exists st', r_readall fuel bufsz acc st = Some (acc ++ h, 0, st') /\ Inv N st' [] t /\ at_eof st' /\
+              rs_state st' = rs_state st.
+Proof.
+  intros Hb. induction fuel as [|fuel IH]; intros acc st h t I Hr Hf; [lia|].
+  cbn [r_readall].
+  destruct (read_ok N st h t bufsz I Hr ltac:(lia)) as (bs & c & st1 & R & (h1 & Hh & I1 & Hs1 & _ & Hc)).
+  rewrite R. destruct Hc as [[-> Hz]|(-> & -> & _ & He)].
+  - cbn [Z.eqb].
+    destruct (IH (acc ++ bs) st1 h1 t I1 ltac:(congruence)) as (st' & RA & I' & E' & Hs').
+    { rewrite Hh, zlen_app in Hf. pose proof (zlen_nonneg h1). lia. }
+    exists st'. rewrite RA, Hh, app_assoc. split; [reflexivity|]. split; [exact I'|]. split; [exact E'|congruence].
+  - cbn [Z.eqb]. rewrite app_nil_r in Hh. subst h. exists st1.
+    split; [reflexivity|]. split; [exact I1|]. split; [exact He|exact Hs1].
+Qed.
+
+Lemma helper_ok N last bufsz st h t :
+  0 < bufsz -> Inv N st h t -> rs_state st = arg_state last -> (last = true <-> t = []) ->
+  exists st', r_helper_read bufsz st = Some (h, 0, st') /\
+              (if last then r_final N st'
+               else exists a' t', t = a' :: t' /\ Inv N st' a' t' /\ ready st').
+Proof.
+  intros Hb I Hs Hlast.
+  assert (Hr : is_reading (rs_state st) = true) by (rewrite Hs; apply is_reading_arg_state).
+  unfold r_helper_read.
+  destruct (readall_ok N bufsz Hb (S (Z.to_nat (total_bytes st)) + length (rs_in st) + 2) [] st h t I Hr)
+    as (st1 & RA & I1 & E1 & Hs1).
+  { pose proof (total_bytes_ge _ _ _ _ I). lia. }
+  rewrite RA. cbn [app Z.eqb negb].
+  assert (Hr1 : is_reading (rs_state st1) = true) by congruence.
+  destruct (read_ok N st1 [] t 128 I1 Hr1 ltac:(lia)) as (bs & c & st2 & R & (h2 & Hh & I2 & Hs2 & _ & Hc)).
+  rewrite R. symmetry in Hh. apply app_eq_nil in Hh. destruct Hh as [-> ->].
+  destruct Hc as [[_ Hz]|(-> & _ & _ & E2)]; [cbn in Hz; lia|].
+  change (zlen (@nil Z) >? 0) with false. cbn [Z.eqb negb andb].
+  assert (Hr2 : is_reading (rs_state st2) = true) by congruence.
+  destruct (close_ok N st2 [] t I2 Hr2) as (cc & st3 & C & P & Q).
+  rewrite Hs2, Hs1, Hs, arg_state_last in P, Q.
+  specialize (Q E2 Hlast). subst cc. rewrite C. exists st3. split; [reflexivity|].
+  destruct P as [(_ & _ & P3)|[[E _] _]]; [|congruence].
+  destruct last.
+  - exact (proj2 P3).
+  - destruct P3 as (a' & t' & P4 & P5 & P6 & _). exists a', t'. split; [exact P4|]. split; [exact P5|].
+    right. exact P6.
+Qed.
+
+Lemma arg_helper_ok N last bufsz st a t :
+  0 < bufsz -> Inv N st a t -> ready st -> (last = true <-> t = []) ->
+  exists st', arg_helper last bufsz st = Some (0, a, 0, st') /\
+              (if last then r_final N st'
+               else exists a' t', t = a' :: t' /\ Inv N st' a' t' /\ ready st').
+Proof.
+  intros Hb I Hrd Hlast. unfold arg_helper.
+  destruct (begin_ok N st a t last I Hrd) as (st1 & B & I1 & Hs1 & _). rewrite B.
+  destruct (helper_ok N last bufsz st1 a t Hb I1 Hs1 Hlast) as (st' & H & P).
+  rewrite H. exists st'. split; [reflexivity|exact P].
+Qed.
+
+Theorem reader_helper : forall fs ck0 a1 a2 a3,
+  wf fs -> ck_new (first_ctype fs) = Some ck0 -> ck_chain ck0 fs ->
+  denote (chunks_of fs) = [a1; a2; a3] ->
+  forall n1 n2 n3, 0 < n1 -> 0 < n2 -> 0 < n3 ->
+  exists st1 st2 st3,
+    arg_helper false n1 (r_init fs) = Some (0, a1, 0, st1) /\
+    arg_helper false n2 st1 = Some (0, a2, 0, st2) /\
+    arg_helper true n3 st2 = Some (0, a3, 0, st3) /\
+    rs_state st3 = c_fragmentingReadComplete /\ rs_fin st3 = true /\
+    rs_rel st3 = Z.of_nat (length fs) /\ rs_err st3 = 0.
+Proof.
+  intros fs ck0 a1 a2 a3 Hwf Hck Hchain Hden n1 n2 n3 H1 H2 H3.
+  destruct (init_inv fs ck0 a1 a2 a3 Hwf Hck Hchain Hden) as [I0 R0].
+  destruct (arg_helper_ok _ false n1 _ _ _ H1 I0 R0) as (st1 & A1 & a' & t' & Et & I1 & R1).
+  { split; discriminate. }
+  injection Et as <- <-.
+  destruct (arg_helper_ok _ false n2 _ _ _ H2 I1 R1) as (st2 & A2 & a' & t' & Et & I2 & R2).
+  { split; discriminate. }
+  injection Et as <- <-.
+  destruct (arg_helper_ok _ true n3 _ _ _ H3 I2 R2) as (st3 & A3 & F1 & F2 & F3 & F4).
+  { split; reflexivity. }
+  exists st1, st2, st3. repeat (split; [assumption|]). exact F4.
+Qed.
+
+(* ================================================================== *)
+(* The same runs through [r_run] of Model/FragWire.v (the harness entry point) *)
+(* ================================================================== *)
+Definition arg_rops (last : bool) (ns : list Z) : list rop := RBegin last :: map RRead ns ++ [RClose].
+Definition reads_obs (l : list (list Z * Z)) : list Z := flat_map (fun x => snd x :: put_bytes (fst x)) l.
+Definition arg_obs (cb : Z) (l : list (list Z * Z)) (cc : Z) : list Z := cb :: reads_obs l ++ [cc].
+
+Lemma r_run_reads : forall ns rest st acc,
+  r_run (map RRead ns ++ rest) st acc =
+  match reads ns st with
+  | None => None
+  | Some (l, st') => r_run rest st' (acc ++ reads_obs l)
+  end.
+Proof.
+  induction ns as [|n ns IH]; intros rest st acc; cbn [map app reads].
+  - unfold reads_obs. cbn [flat_map]. rewrite app_nil_r. reflexivity.
+  - cbn [r_run]. destruct (r_read n st) as [[[bs c] st1]|]; [|reflexivity].
+    rewrite IH. destruct (reads ns st1) as [[l st2]|]; [|reflexivity].
+    unfold reads_obs. cbn [flat_map fst snd]. rewrite <- app_assoc. reflexivity.
+Qed.
+
+Lemma r_run_arg last ns rest st acc :
+  r_run (arg_rops last ns ++ rest) st acc =
+  match arg_read last ns st with
+  | None => None
+  | Some (cb, l, cc, st') => r_run rest st' (acc ++ arg_obs cb l cc)
+  end.
+Proof.
+  unfold arg_rops, arg_read. cbn [app r_run].
+  destruct (r_begin last st) as [[cb st1]|]; [|reflexivity].
+  rewrite <- app_assoc, r_run_reads.
+  destruct (reads ns st1) as [[l st2]|]; [|reflexivity].
+  cbn [app r_run]. destruct (r_close st2) as [[cc st3]|]; [|reflexivity].
+  unfold arg_obs. cbn [app]. rewrite <- !app_assoc. reflexivity.
+Qed.
+
+Corollary reader_eof_run : forall fs ck0 a1 a2 a3,
+  wf fs -> ck_new (first_ctype fs) = Some ck0 -> ck_chain ck0 fs ->
+  denote (chunks_of fs) = [a1; a2; a3] ->
+  forall ns1 ns2 ns3,
+  Forall (fun n => 0 < n) ns1 -> Forall (fun n => 0 < n) ns2 -> Forall (fun n => 0 < n) ns3 ->
+  zsum ns1 > zlen a1 -> zsum ns2 > zlen a2 -> zsum ns3 > zlen a3 ->
+  exists l1 l2 l3 st,
+    r_run (arg_rops false ns1 ++ arg_rops false ns2 ++ arg_rops true ns3) (r_init fs) []
+      = Some (arg_obs 0 l1 0 ++ arg_obs 0 l2 0 ++ arg_obs 0 l3 0, st) /\
+    Forall code_ok l1 /\ Forall code_ok l2 /\ Forall code_ok l3 /\
+    data_of l1 = a1 /\ data_of l2 = a2 /\ data_of l3 = a3 /\
+    r_final (Z.of_nat (length fs)) st.
+Proof.
+  intros fs ck0 a1 a2 a3 Hwf Hck Hchain Hden ns1 ns2 ns3 Hp1 Hp2 Hp3 Hs1 Hs2 Hs3.
+  destruct (reader_eof fs ck0 a1 a2 a3 Hwf Hck Hchain Hden ns1 ns2 ns3 Hp1 Hp2 Hp3 Hs1 Hs2 Hs3)
+    as (l1 & st1 & l2 & st2 & l3 & st3 & A1 & A2 & A3 & C1 & C2 & C3 & D1 & D2 & D3 & F1 & F2 & F3 & F4).
+  exists l1, l2, l3, st3. split.
+  - rewrite r_run_arg, A1, r_run_arg, A2.
+    rewrite <- (app_nil_r (arg_rops true ns3)), r_run_arg, A3. cbn [r_run app].
+    rewrite <- app_assoc. reflexivity.
+  - repeat (split; [assumption|]). unfold r_final. repeat split; assumption.
+Qed.
+
+Corollary reader_helper_run : forall fs ck0 a1 a2 a3,
+  wf fs -> ck_new (first_ctype fs) = Some ck0 -> ck_chain ck0 fs ->
+  denote (chunks_of fs) = [a1; a2; a3] ->
+  forall n1 n2 n3, 0 < n1 -> 0 < n2 -> 0 < n3 ->
+  exists st,
+    r_run [RBegin false; RHelper n1; RBegin false; RHelper n2; RBegin true; RHelper n3] (r_init fs) []
+      = Some ([0] ++ 0 :: put_bytes a1 ++ [0] ++ 0 :: put_bytes a2 ++ [0] ++ 0 :: put_bytes a3, st) /\
+    r_final (Z.of_nat (length fs)) st.
+Proof.
+  intros fs ck0 a1 a2 a3 Hwf Hck Hchain Hden n1 n2 n3 H1 H2 H3.
+  destruct (reader_helper fs ck0 a1 a2 a3 Hwf Hck Hchain Hden n1 n2 n3 H1 H2 H3)
+    as (st1 & st2 & st3 & A1 & A2 & A3 & F1 & F2 & F3 & F4).
+  exists st3. split; [|unfold r_final; repeat split; assumption].
+  unfold arg_helper in A1, A2, A3. cbn [r_run].
+  destruct (r_begin false (r_init fs)) as [[cb1 s1]|]; [|discriminate].
+  destruct (r_helper_read n1 s1) as [[[b1 c1] s1']|]; [|discriminate].
+  injection A1 as -> -> -> ->.
+  destruct (r_begin false st1) as [[cb2 s2]|]; [|discriminate].
+  destruct (r_helper_read n2 s2) as [[[b2 c2] s2']|]; [|discriminate].
+  injection A2 as -> -> -> ->.
+  destruct (r_begin true st2) as [[cb3 s3]|]; [|discriminate].
+  destruct (r_helper_read n3 s3) as [[[b3 c3] s3']|]; [|discriminate].
+  injection A3 as -> -> -> ->.
+  cbn [app]. rewrite <- !app_assoc. reflexivity.
+Qed.
+
+Corollary reader_safe_run : forall fs ck0 a1 a2 a3,
+  wf fs -> ck_new (first_ctype fs) = Some ck0 -> ck_chain ck0 fs ->
+  denote (chunks_of fs) = [a1; a2; a3] ->
+  forall ns1 ns2 ns3,
+  Forall (fun n => 0 <= n) ns1 -> Forall (fun n => 0 <= n) ns2 -> Forall (fun n => 0 <= n) ns3 ->
+  exists cb1 l1 cc1 cb2 l2 cc2 cb3 l3 cc3 st,
+    r_run (arg_rops false ns1 ++ arg_rops false ns2 ++ arg_rops true ns3) (r_init fs) []
+      = Some (arg_obs cb1 l1 cc1 ++ arg_obs cb2 l2 cc2 ++ arg_obs cb3 l3 cc3, st) /\
+    (arg_ok cb1 l1 cc1 -> data_of l1 = a1) /\
+    (arg_ok cb2 l2 cc2 -> data_of l2 = a2) /\
+    (arg_ok cb3 l3 cc3 -> data_of l3 = a3) /\
+    sticky (ops_of cb1 l1 cc1 ++ ops_of cb2 l2 cc2 ++ ops_of cb3 l3 cc3).
+Proof.
+  intros fs ck0 a1 a2 a3 Hwf Hck Hchain Hden ns1 ns2 ns3 Hp1 Hp2 Hp3.
+  destruct (reader_safe fs ck0 a1 a2 a3 Hwf Hck Hchain Hden ns1 ns2 ns3 Hp1 Hp2 Hp3)
+    as (cb1 & l1 & cc1 & st1 & cb2 & l2 & cc2 & st2 & cb3 & l3 & cc3 & st3 &
+        A1 & A2 & A3 & G1 & G2 & G3 & _ & _ & _ & S & _).
+  exists cb1, l1, cc1, cb2, l2, cc2, cb3, l3, cc3, st3. split.
+  - rewrite r_run_arg, A1, r_run_arg, A2.
+    rewrite <- (app_nil_r (arg_rops true ns3)), r_run_arg, A3. cbn [r_run app].
+    rewrite <- app_assoc. reflexivity.
+  - repeat (split; [assumption|]). exact S.
+Qed.
+
+(* ================================================================== *)
+(* Non-vacuity: the premises are satisfiable, for every chunk layout and checksum *)
+(* ================================================================== *)
+(* fragments with the given more-flags and chunks, checksummed the way the writer does *)
+Fixpoint seal (c : ckst) (l : list (bool * list (list Z))) : list frag :=
+  match l with
+  | [] => []
+  | (m, cs) :: r => let c' := fold_left ck_add cs c in
+                    mkFrag m (ck_typecode c) (ck_sum c') cs :: seal c' r
+  end.
+
+Lemma seal_chain : forall l c, ck_chain c (seal c l).
+Proof.
+  induction l as [|[m cs] r IH]; intros c; cbn [seal ck_chain f_ck f_ctype f_chunks]; [exact I|].
+  split; [reflexivity|]. split; [reflexivity|apply IH].
+Qed.
+
+Definition ex_layout : list (bool * list (list Z)) :=
+  [(true, [[1;2]; [3]]); (true, [[4]]); (false, [[]; [5;6]])].
+Definition ex_fs : list frag := seal (mkCk 0 0) ex_layout.        (* no checksum *)
+Definition ex_fs_crc : list frag := seal (mkCk 1 0) ex_layout.    (* crc32 *)
+Definition ex_fs_crcc : list frag := seal (mkCk 3 0) ex_layout.   (* crc32c *)
+
+Ltac ok_tac :=
+  repeat match goal with
+         | |- _ /\ _ => split
+         | |- _ <-> _ => split; intros
+         | |- _ <> _ => discriminate
+         | |- true = true => reflexivity
+         | |- True => exact I
+         | H : false = true |- _ => discriminate H
+         | H : [] <> [] |- _ => exfalso; apply H; reflexivity
+         | |- _ <= _ => vm_compute; discriminate
+         end.
+
+Lemma ex_premises c : In c [mkCk 0 0; mkCk 1 0; mkCk 3 0] ->
+  wf (seal c ex_layout) /\ ck_new (first_ctype (seal c ex_layout)) = Some c /\
+  ck_chain c (seal c ex_layout) /\
+  denote (chunks_of (seal c ex_layout)) = [[1;2]; [3;4]; [5;6]].
+Proof.
+  intros Hc. split; [|split; [|split; [apply seal_chain|reflexivity]]].
+  - exists (fun _ => 100). unfold frames_ok.
+    cbn [seal ex_layout frames_ok_from f_chunks f_more]. ok_tac.
+  - cbn in Hc. destruct Hc as [<-|[<-|[<-|[]]]]; reflexivity.
+Qed.
+
+Definition run3 (ns1 ns2 ns3 : list Z) (fs : list frag) :=
+  match arg_read false ns1 (r_init fs) with
+  | None => None
+  | Some (cb1, l1, cc1, st1) =>
+    match arg_read false ns2 st1 with
+    | None => None
+    | Some (cb2, l2, cc2, st2) =>
+      match arg_read true ns3 st2 with
+      | None => None
+      | Some (cb3, l3, cc3, st3) =>
+          Some ((cb1, l1, cc1), (cb2, l2, cc2), (cb3, l3, cc3), (rs_state st3, rs_err st3, rs_rel st3, rs_fin st3))
+      end
+    end
+  end.
+
+(* reads past EOF *)
+Example ex_run_eof : run3 [1;5] [3] [1;1;1] ex_fs_crc =
+  Some ((0, [([1], 0); ([2], 12)], 0), (0, [([3;4], 12)], 0), (0, [([5], 0); ([6], 0); ([], 12)], 0), (4, 0, 3, true)).
+Proof. vm_compute. reflexivity. Qed.
+
+(* exact-length reads: Close has to fetch fragments itself (its case 4) and still lands on
+   the right chunk *)
+Example ex_run_exact : run3 [2] [2] [2] ex_fs_crcc =
+  Some ((0, [([1;2], 0)], 0), (0, [([3;4], 0)], 0), (0, [([5;6], 0)], 0), (4, 0, 3, true)).
+Proof. vm_compute. reflexivity. Qed.
+
+(* a short read: Close reports errMoreDataInArgument and everything after it fails *)
+Example ex_run_short : run3 [2] [1] [2;7] ex_fs =
+  Some ((0, [([1;2], 0)], 0), (0, [([3], 0)], 4), (4, [([], 4); ([], 4)], 4), (3, 4, 1, false)).
+Proof. vm_compute. reflexivity. Qed.
+
+(* A limitation that reader_safe permits (an error, never wrong data): when the LAST
+   argument is read with exact-length reads and the message ends with a fragment that
+   carries only the empty continuation chunk (the writer produces it on Flush followed by
+   Close), Close returns errExpectedMoreArguments (5) although all data was delivered.
+   Reading up to EOF (reader_eof / reader_helper) avoids it. *)
+Definition ex_tail_layout : list (bool * list (list Z)) := [(true, [[1]; [2]; [3]]); (false, [[]])].
+Example ex_last_exact_close :
+  denote (chunks_of (seal (mkCk 0 0) ex_tail_layout)) = [[1]; [2]; [3]] /\
+  run3 [1] [1] [1] (seal (mkCk 0 0) ex_tail_layout) =
+    Some ((0, [([1], 0)], 0), (0, [([2], 0)], 0), (0, [([3], 0)], 5), (2, 5, 0, false)) /\
+  run3 [1] [1] [1;1] (seal (mkCk 0 0) ex_tail_layout) =
+    Some ((0, [([1], 0)], 0), (0, [([2], 0)], 0), (0, [([3], 0); ([], 12)], 0), (4, 0, 2, true)).
+Proof. vm_compute. repeat split; reflexivity. Qed.
+
+Print Assumptions reader_eof.
+Print Assumptions reader_helper.
+Print Assumptions reader_safe.
+Print Assumptions reader_eof_run.
+Print Assumptions reader_helper_run.
+Print Assumptions reader_safe_run.
